@@ -133,6 +133,27 @@ impl BigUint {
 //@ end
 }
 
+impl BigUint {
+//@ extract src/biguint.rs :: impl One for BigUint :: fn is_one rules=R0,R12k props=C19
+    fn is_one(&self) -> /*+*/(r: /*-*/bool/*+*/)/*-*/
+//+{
+        ensures r == (self.data@ =~= seq![1u64]), self.wf() ==> r == (self.v() == 1)
+//+}
+    {
+//+{
+        proof {
+            lemma_val_single(1u64);
+            if self.wf() && self.v() == 1 {
+                assert(wf(seq![1u64]));
+                lemma_canonical_unique(self.data@, seq![1u64]);
+            }
+        }
+//+}
+        __vec_is_one(&self.data)
+    }
+//@ end
+}
+
 //@ extract src/biguint.rs :: fn biguint_from_vec props=C04,C09
 pub(crate) fn biguint_from_vec(digits: Vec<BigDigit>) -> /*+*/(r: /*-*/BigUint/*+*/)/*-*/
 //+{
